@@ -116,8 +116,8 @@ def main(argv):
                         if m and parts[1].startswith('replay:'): parts[1] = m.group(1) + parts[1][len('replay'):]
                         parts[1] += ' (corpus/C12/%s)' % os.path.basename(f)
                         lines.append('\t'.join(parts))
-            n_codec = 320 if tier == 'quick' else 3000
-            n_intr = 160 if tier == 'quick' else 1200
+            n_codec = 280 if tier == 'quick' else 3000
+            n_intr = 140 if tier == 'quick' else 1200
             lines += run_harness(v, ['repro'], seed) + run_harness(v, ['boundaries'], seed)
             lines += run_harness(v, ['codec', n_codec], seed) + run_harness(v, ['intrinsic', n_intr], seed)
         for l in lines:
